@@ -426,10 +426,29 @@ type object struct {
 
 var lengths = []int{0, 1, 2, 5, 8, 9, 31, 64}
 
-func genPool(t *rapid.T) []object {
+func genPool(t *rapid.T, kf digest.KeyFormat) []object {
 	n := rapid.IntRange(1, 5).Draw(t, "nobj")
 	pool := make([]object, 0, n)
 	for i := 0; i < n; i++ {
+		// Instance-name-aware replicas: sometimes the same blob under the
+		// other instance name (a different object for such replicas, placed
+		// independently, but equal in hash and size).
+		if kf == digest.KeyWithInstance && i > 0 && rapid.IntRange(0, 3).Draw(t, fmt.Sprintf("obj%d/twin", i)) == 0 {
+			src := pool[rapid.IntRange(0, i-1).Draw(t, fmt.Sprintf("obj%d/twinof", i))]
+			inst := "x"
+			if src.inst == "x" {
+				inst = ""
+			}
+			d := hx.Sha(inst, src.data)
+			dup := false
+			for _, o := range pool {
+				dup = dup || o.d == d
+			}
+			if !dup {
+				pool = append(pool, object{inst: inst, data: src.data, d: d})
+				continue
+			}
+		}
 		ln := rapid.SampledFrom(lengths).Draw(t, fmt.Sprintf("obj%d/len", i))
 		var data []byte
 		if !(i == 0 && ln == 0) {
@@ -701,7 +720,7 @@ func mirroredProperty(t *testing.T, rec *vstats.Recorder) {
 		}
 		cfgAB := genRepl(t, "AtoB", 2, true)
 		cfgBA := genRepl(t, "BtoA", 2, true)
-		pool := genPool(t)
+		pool := genPool(t, kf)
 		log := &backends.Log{}
 		shapesA, shapesB := genShapes(t, "A"), genShapes(t, "B")
 		scriptA, scriptB := genScript(t, "A"), genScript(t, "B")
@@ -738,6 +757,13 @@ func mirroredProperty(t *testing.T, rec *vstats.Recorder) {
 		c.Add(incons[0].String(), incons[1].String())
 		c.Class("repl_" + cfgAB.Kind)
 		c.Class("repl_" + cfgBA.Kind)
+		for i, o := range pool {
+			for _, o2 := range pool[:i] {
+				if bytes.Equal(o.data, o2.data) && o.inst != o2.inst {
+					c.Class("same_blob_under_two_instance_names")
+				}
+			}
+		}
 		for i, r := range p.r {
 			if !incons[i].empty() {
 				c.Class("inconsistent_replica_" + r.label)
